@@ -90,7 +90,7 @@ fn resolve_escape_sequences_to_bytes(escaped: &str) -> Result<Vec<u8>> {
                         '\\' => bytes.push(ch as u8),
                         _ => {
                             bytes.push(ch as u8);
-                            bytes.push(ch2 as u8);
+                            bytes.extend(ch2.encode_utf8(&mut buf).as_bytes());
                         }
                     }
                 } else {
